@@ -5,7 +5,9 @@
 From Coq Require Import List Arith Bool ZArith Lia.
 Import ListNotations.
 Require Import C07.Model C07.ProofsBase C07.ProofsRouting C07.ProofsSizes C07.ProofsW C07.ProofsLeaf C07.ProofsToeplitz
-  C07.ProofsComposite C07.ProofsMain C07.ProofsInduct.
+  C07.ProofsComposite C07.ProofsMain C07.ProofsBlocks C07.ProofsMasked C07.ProofsInterpAlg C07.ProofsInterp
+  C07.ProofsInduct C07.ProofsBackward C07.ProofsSolve
+  C07.ProofsRebuild.
 
 Section Statements.
 Context {K : RingOps} {Kth : RingLaws K}.
@@ -33,6 +35,13 @@ Proof. exact (@ProofsRouting.alignment_identity_refuted K U V). Qed.
 Theorem rebuild_roundtrip fx (e : OpExpr K) :
   (fx_chol fx = true \/ no_chol_upper e = true) -> rebuild K fx e (representation K e) = e.
 Proof. exact (@ProofsRouting.rebuild_roundtrip K fx e). Qed.
+
+(* memory_efficient off: backward uses the operator saved by forward, itself `representation_tree( *saved tensors)`;
+   memory_efficient on: it is rebuilt again from the same tensors.  Rebuilding is idempotent for EVERY expression (also on
+   the pinned tree), so both settings differentiate the same operator. *)
+Theorem memory_efficient_independent fx (e : OpExpr K) :
+  let e1 := rebuild K fx e (representation K e) in rebuild K fx e1 (representation K e1) = e1.
+Proof. exact (@rebuild_idempotent K fx e). Qed.
 
 Theorem rebuild_chol_upper_refuted (x : OpExpr K) :
   rebuild K pinned (Chol K x true) (representation K (Chol K x true)) <> Chol K x true.
@@ -73,13 +82,87 @@ Theorem coefficient_ConstantMul fx b c rg :
   wf (ConstantMul K b c rg) -> id_ok fx b -> coefficient_identity fx b -> coefficient_identity fx (ConstantMul K b c rg).
 Proof. exact (coeff_CMul fx b c rg). Qed.
 
+(* InterpolatedLinearOperator: the base gets (W_l^T U, W_r^T V); the index tensors get zeros; the left values get the rows of
+   base @ (W_r^T V) selected by the left indices times U (and symmetrically), duplicates in the index tensors adding up *)
+Theorem coefficient_Interpolated fx b li lv lrg ri rv rrg :
+  wf (Interpolated K b li lv lrg ri rv rrg) -> id_ok fx b -> coefficient_identity fx b ->
+  coefficient_identity fx (Interpolated K b li lv lrg ri rv rrg).
+Proof. exact (coeff_Interpolated fx b li lv lrg ri rv rrg). Qed.
+
+(* MaskedLinearOperator: `_expand` fills the masked rows of zero blocks; Block*: `_add_batch_dim` moves the block index
+   into the batch of the base operator (block diagonal: i = blk * m + i', interleaved: i = i' * k + blk, sum: broadcast) *)
+Theorem coefficient_Masked fx b rm cm :
+  wf (Masked K b rm cm) -> id_ok fx b -> coefficient_identity fx b -> coefficient_identity fx (Masked K b rm cm).
+Proof. exact (coeff_Masked fx b rm cm). Qed.
+Theorem coefficient_BlockDiag fx b : wf (BlockDiag K b) -> coefficient_identity fx b -> coefficient_identity fx (BlockDiag K b).
+Proof. exact (coeff_BlockDiag fx b). Qed.
+Theorem coefficient_BlockInterleaved fx b :
+  wf (BlockInterleaved K b) -> coefficient_identity fx b -> coefficient_identity fx (BlockInterleaved K b).
+Proof. exact (coeff_BlockInterleaved fx b). Qed.
+Theorem coefficient_SumBatch fx b : wf (SumBatch K b) -> coefficient_identity fx b -> coefficient_identity fx (SumBatch K b).
+Proof. exact (coeff_SumBatch fx b). Qed.
+
 (* ---- main theorem: every nesting (any depth) of Dense, Diag, ConstantDiag, Identity, Toeplitz, Sum (AddedDiag, PsdSum,
-   SumKronecker-of-those ...), Matmul, ConstantMul — `lin` — satisfies the coefficient identity at every leaf, for every
-   requires_grad pattern.  wf: the shape side conditions the constructors establish; id_ok: no Identity node on the pinned
+   SumKronecker-of-those ...), Matmul, ConstantMul, Interpolated, Masked, BlockDiag, BlockInterleaved, SumBatch — `lin` —
+   satisfies the
+   coefficient identity at every leaf, for every requires_grad pattern.  wf: the shape side conditions the constructors establish; id_ok: no Identity node on the pinned
    tree (its spurious slot shifts the tuple). *)
 Theorem coefficient_linear_fragment fx (e : OpExpr K) :
   wf e -> lin e = true -> id_ok fx e -> coefficient_identity fx e.
 Proof. exact (coeff_lin fx e). Qed.
+
+(* ---- functions/_matmul.py, Matmul.backward (matrix right-hand side).  out_pair e B C G X = < G , A X > with X broadcast
+   to the batch shape of G.  The right-hand-side gradient is A^T G, reduced to the right-hand side's shape:
+   < G, A (rhs + delta) > - < G, A rhs > = < rhs_grad, delta > for all delta (rhs enters linearly, so this is the gradient).
+   collapse_safe: on the pinned tree `rhs_grad.reshape(-1, *rhs_shape).sum(0)` is that reduction only when the extra
+   dimensions are leading ones (known finding C07-matmul-rhs-grad-collapse otherwise). *)
+Theorem matmul_backward_rhs_correct fx (e : OpExpr K) (rhs G : tensor K) B C (delta : tensor K) need_args g :
+  chol_ok fx e ->
+  tshape K G = C :: nrows K e :: B -> expandable (bshape K e) B = true ->
+  expandable (tshape K rhs) (C :: ncols K e :: B) = true -> 0 < numel (tshape K rhs) ->
+  collapse_safe fx (tshape K rhs) (C :: ncols K e :: B) ->
+  tshape K delta = tshape K rhs ->
+  fst (matmul_backward K fx e rhs G need_args true) = Some g ->
+  rsub K (out_pair e B C G (tadd K rhs delta)) (out_pair e B C G rhs) = pair K g delta.
+Proof. exact (matmul_backward_rhs fx e rhs G B C delta need_args g). Qed.
+
+(* the operator gradients are `_bilinear_derivative(grad_output, rhs)` of the operator itself (the rebuild is the identity,
+   with memory_efficient on or off), hence the coefficient identity at (G, rhs) for the linear fragment *)
+Theorem matmul_backward_args_correct fx (e : OpExpr K) (rhs G : tensor K) need_rhs :
+  chol_ok fx e -> snd (matmul_backward K fx e rhs G true need_rhs) = alg_bd K fx e G rhs.
+Proof. exact (matmul_backward_args fx e rhs G need_rhs). Qed.
+
+Theorem matmul_backward_args_coefficient fx (e : OpExpr K) :
+  wf e -> lin e = true -> id_ok fx e -> chol_ok fx e ->
+  forall B D (G rhs : tensor K) k t rg (delta g : tensor K) need_rhs,
+    tshape K G = D :: nrows K e :: B -> tshape K rhs = D :: ncols K e :: B -> expandable (bshape K e) B = true ->
+    csafe fx e B ->
+    nth_error (representation K e) k = Some (LF K t rg) -> tshape K delta = tshape K t ->
+    nth_error (snd (matmul_backward K fx e rhs G true need_rhs)) k = Some (Some g) ->
+    rsub K (bil K (perturb K e k delta) B D G rhs) (bil K e B D G rhs) = pair K g delta.
+Proof. exact (matmul_backward_args_coeff fx e). Qed.
+
+(* ---- Solve / InvQuad / InvQuadLogdet: only the exact algebra is proved.  For solutions A x = b, (A+E) y = b, A^T w = u:
+   u^T y - u^T x = -w^T E y, and the difference to < -(w x^T), E > (the gradient Solve.backward hands to
+   _bilinear_derivative, with w = A^-T u, x = A^-1 b) is -w^T E (y - x), of second order in E.
+   PARTIAL: that y -> x as E -> 0 (so that -(w x^T) is the derivative) is not formalised; the derivative of logdet and of
+   the eigen / Lanczos / pivoted-Cholesky based functions is not treated at all. *)
+Theorem solve_resolvent_identity n (A E : nat -> nat -> car K) (x y b u w : nat -> car K) :
+  (forall i, i < n -> rsum K n (fun j => rmul K (A i j) (x j)) = b i) ->
+  (forall i, i < n -> rsum K n (fun j => rmul K (radd K (A i j) (E i j)) (y j)) = b i) ->
+  (forall j, j < n -> rsum K n (fun i => rmul K (A i j) (w i)) = u j) ->
+  rsub K (rsum K n (fun j => rmul K (u j) (y j))) (rsum K n (fun j => rmul K (u j) (x j)))
+  = ropp K (rsum K n (fun i => rmul K (w i) (rsum K n (fun j => rmul K (E i j) (y j))))).
+Proof. exact (resolvent_identity n A E x y b u w). Qed.
+
+Theorem solve_gradient_remainder_partial n (A E : nat -> nat -> car K) (x y b u w : nat -> car K) :
+  (forall i, i < n -> rsum K n (fun j => rmul K (A i j) (x j)) = b i) ->
+  (forall i, i < n -> rsum K n (fun j => rmul K (radd K (A i j) (E i j)) (y j)) = b i) ->
+  (forall j, j < n -> rsum K n (fun i => rmul K (A i j) (w i)) = u j) ->
+  rsub K (rsub K (rsum K n (fun j => rmul K (u j) (y j))) (rsum K n (fun j => rmul K (u j) (x j))))
+         (rsum K n (fun i => rsum K n (fun j => rmul K (ropp K (rmul K (w i) (x j))) (E i j))))
+  = ropp K (rsum K n (fun i => rmul K (w i) (rsum K n (fun j => rmul K (E i j) (rsub K (y j) (x j)))))).
+Proof. exact (solve_gradient_remainder n A E x y b u w). Qed.
 
 End Statements.
 
@@ -101,5 +184,17 @@ Example nested_ex_lin : lin nested_ex = true. Proof. reflexivity. Qed.
 Example nested_ex_id : id_ok pinned nested_ex. Proof. right. reflexivity. Qed.
 Example nested_ex_csafe : csafe pinned nested_ex [3].
 Proof. cbn. repeat split; auto. unfold collapse_safe. cbn. right. left. lia. Qed.
+(* 1 x 1 instance of the hypotheses of the resolvent identity over Z: A = 2, E = 1, b = 6, x = 3, y = 2, u = 2, w = 1 *)
+Example resolvent_hyps_ex :
+  (forall i, i < 1 -> rsum ZK 1 (fun j => rmul ZK 2%Z 3%Z) = 6%Z) /\
+  (forall i, i < 1 -> rsum ZK 1 (fun j => rmul ZK (radd ZK 2%Z 1%Z) 2%Z) = 6%Z) /\
+  (forall j, j < 1 -> rsum ZK 1 (fun i => rmul ZK 2%Z 1%Z) = 2%Z).
+Proof. repeat split; intros; reflexivity. Qed.
+Example matmul_backward_hyps_ex :
+  let e := Dense ZK (of_flat ZK [2; 2; 3] [1; 2; 3; 4; 5; 6; 7; 8; 9; 10; 11; 12]%Z) true in
+  let rhs := of_flat ZK [1; 2] [1; 2]%Z in
+  chol_ok pinned e /\ expandable (bshape ZK e) [3] = true /\ expandable (tshape ZK rhs) [1; ncols ZK e; 3] = true
+  /\ 0 < numel (tshape ZK rhs) /\ collapse_safe pinned (tshape ZK rhs) [1; ncols ZK e; 3].
+Proof. cbn. repeat split; auto. right. reflexivity. unfold collapse_safe. right. right. exists [3]. reflexivity. Qed.
 Example no_identity_ex : no_identity (Sum ZK [Dense ZK (of_flat ZK [2; 2] [1; 2; 3; 4]%Z) true; Diag ZK (of_flat ZK [2] [1; 2]%Z) false]) = true.
 Proof. reflexivity. Qed.
